@@ -8,28 +8,36 @@ from props import _c18_sim as S
 
 ID = "C18"
 COQ_REQUIRE = "C18.Run"
-SHARD = 60
+SHARD = 100
 CASE_TIMEOUT = 30
 RULE = ("one public call (nice/ionice/cpu_affinity/rlimit, get or set form) on one process of a two- or three-process kernel state; "
         "SIM: simulated kernel behind the patched native calls (fake /proc with the kernel-printed status file), sweeping every nice "
         "value -20..19 and the ring around it, every I/O class (None,-1..5,2^18-1) x level (None,-1..8,100), every non-empty subset of "
         "a 6-CPU eligible set, duplicates, ineligible / nonexistent / huge ids, [] and the get form on seven affinity situations "
         "(plain range, multi-range cpuset, narrowed, single CPU, range-free cpuset, lxcfs-like, 2-CPU), all 16 RLIMIT_* x "
-        "{(0,0),(0,1),(1,1),(5,inf),(inf,inf),(2^63-1,inf),(-2,inf)} and invalid resources / non-pairs / soft>hard; "
-        "LIVE: the same calls on a spawned `sleep` child with a bystander child, read back with os.getpriority, os.sched_getaffinity, "
-        "resource.prlimit and a raw ioprio_get syscall. Compared: answer, get form afterwards, complete state of every process afterwards. "
+        "{(0,0),(0,1),(1,1),(5,inf),(inf,inf),(2^63-1,inf),(-2,inf)}, invalid resources / non-pairs / scalars / soft>hard / values around "
+        "2^63 and 2^64; four capability sets (none, CAP_SYS_NICE, CAP_SYS_ADMIN, CAP_SYS_RESOURCE) x nice lowering inside/outside "
+        "RLIMIT_NICE, RT I/O class, raising hard limits, RLIMIT_NOFILE vs fs.nr_open; kernels whose ioprio_get reports the effective class; "
+        "STATUS: the Cpus_allowed_list parser alone on printed lists (ranges, singletons) with random lines before (incl. Name: lines that "
+        "look like the key) and text after; "
+        "LIVE: the same calls on a spawned `sleep` child with a bystander child (capabilities, fs.nr_open and the ioprio_get behaviour of "
+        "this box detected first), read back with os.getpriority, os.sched_getaffinity, resource.prlimit and a raw ioprio_get syscall. "
+        "Compared: answer (psutil exceptions with the pid they carry), get form afterwards, complete state of every process afterwards "
+        "(against specification and model), and the value of _get_eligible_cpus() on the start state (against the model). "
         "A case is non-trivial when it is a set form or a get on a non-default state; distinct = distinct canonical case hash.")
 TRUSTED = ["correspondence harness props/C18.py + props/_c18_sim.py (SimKernel: Python twin of coq/C18/Kernel.v incl. the C argument "
            "conversions of the patched native calls; live part: raw syscalls through ctypes/os/resource)",
-           "kernel rules of setpriority/ioprio_set/sched_setaffinity/prlimit and the Cpus_allowed_list format transcribed in coq/C18/Kernel.v",
+           "kernel rules of setpriority (can_nice/RLIMIT_NICE), ioprio_set (ioprio_check_cap), ioprio_get (effective class on >= 5.18), "
+           "sched_setaffinity (cpuset clipping), do_prlimit (nr_open, CAP_SYS_RESOURCE) and the Cpus_allowed_list format transcribed in "
+           "coq/C18/Kernel.v",
            "the real C wrappers (proc.c, _psutil_posix.c) are tied to the model only by the LIVE cases"]
 ASSUMPTIONS = ["Process._raise_if_pid_reused() passes (the object still denotes its process): C01/C02 own that layer",
-               "the caller is privileged (root): no EPERM from the kernel for in-range requests",
-               "the status text around the Cpus_allowed_list line is fixed text in the model",
-               "x86_64 syscall numbers 251/252 for the raw ioprio calls"]
+               "the caller's uids match the target's (no EPERM from the ownership tests); capabilities are the three modelled flags",
+               "scheduling policy SCHED_OTHER for the effective I/O class",
+               "x86_64 syscall numbers 251/252 for the raw ioprio calls; LIVE needs root (skipped otherwise)"]
 EXHAUSTIVE = {"quick": "nice -20..19 (sim+live); I/O class 0-3 x level None,0..7 (sim+live); all 63 non-empty subsets of a 6-CPU eligible set (sim) "
-                       "and all 15 of 4 live CPUs; 16 RLIMIT_* x 7 value pairs (sim)",
-              "thorough": "same sweeps plus all 255 non-empty subsets of an 8-CPU eligible set and random states/requests"}
+                       "and all 15 of 4 live CPUs; 16 RLIMIT_* x 7 value pairs (sim); 4 capability sets x RT/BE/IDLE/NONE x 5 levels",
+              "thorough": "same sweeps plus all 255 non-empty subsets of an 8-CPU eligible set, the full permission grid and random states/requests"}
 
 INF = -1
 DEFAULT_RLIM = [[INF, INF], [INF, INF], [INF, INF], [8388608, INF], [0, INF], [INF, INF], [63000, 63000], [1024, 4096],
@@ -118,10 +126,10 @@ def gen_cases(rng, tier):
     for caps in (NOCAPS, {"nice": True, "admin": False, "resource": False}, {"nice": False, "admin": True, "resource": False},
                  {"nice": False, "admin": False, "resource": True}):
         tag = "+".join(k for k in ("nice", "admin", "resource") if caps[k]) or "nocaps"
-        for start, soft13 in ((0, 0), (5, 0), (0, 25), (-3, 30), (10, 15)):
+        for start, soft13 in ((0, 0), (5, 0), (0, 25), (-3, 30), (10, 15))[:5 if tier == "thorough" else 3]:
             rl = [list(x) for x in DEFAULT_RLIM]
             rl[13] = [soft13, 40]
-            for v in (-20, -10, -6, -5, -4, -1, 0, 4, 5, 6, 10, 19, -21, 25):
+            for v in (-20, -10, -6, -5, -4, -1, 0, 4, 5, 6, 10, 19, -21, 25) if tier == "thorough" else (-20, -6, -5, -4, 0, 4, 5, 6, 19, -21):
                 cases.append(_sim("perm-nice-" + tag, plain, ["nice", v], nice=start, rlim=rl, caps=caps))
         for c in (0, 1, 2, 3):
             for v in (None, 0, 4, 7, 8):
@@ -386,7 +394,9 @@ def _req_term(req):
 
 
 def _proc_term(p):
-    rl = "[" + ";".join("(%s,%s)" % (G.z(s), G.z(h)) for s, h in p["rlim"]) + "]"
+    def lim(v):      # large numerals are slow to parse: name the common one
+        return "RLIM_INFINITY" if v == 2 ** 64 - 1 else G.z(v)
+    rl = "[" + ";".join("(%s,%s)" % (lim(s), lim(h)) for s, h in p["rlim"]) + "]"
     return "(%s, Build_proc %s %s %s %s %s)" % (G.z(p["pid"]), G.z(p["nice"]), G.z(p["ioprio"]), _zl(p["mask"]), _zl(p["elig"]), rl)
 
 
@@ -416,9 +426,19 @@ def coq_term(case):
     return "run_case %s %s %s" % (k, G.z(case["pid"]), _req_term(case["req"]))
 
 
+def _expand(case, dump):
+    """replace the markers Same pid of a printed kernel state by the start state of that process"""
+    start = {p["pid"]: [p["pid"], p["nice"], S.reported_ioprio(case["ioget_eff"], p["ioprio"], p["nice"]), list(p["mask"]), list(p["elig"]),
+                        [list(x) for x in p["rlim"]]] for p in case["procs"]}
+    return [start[e["a"][0]] if isinstance(e, dict) and e.get("t") == "Same" else e for e in dump]
+
+
 def coq_struct(case, raw):
     if case["kind"] == "status":
         return {"printed": raw[0], "model": raw[1], "spec": None}
+    raw[3] = _expand(case, raw[3])
+    if raw[5] is not None:
+        raw[5][2] = _expand(case, raw[5][2])
     if raw[6] is not True:
         raise RuntimeError("C18 generator produced an ill-formed kernel state: %r" % (case,))
     return {"printed": raw[0], "model": [raw[1], raw[2], raw[3], raw[4]], "spec": raw[5]}
@@ -452,6 +472,22 @@ def _conv(r):
     return [int(x) for x in r]
 
 
+def _out(fn, conv, pidmap=None):
+    """like pv.canon.outcome, but psutil's own exceptions keep the pid they carry (mapped to the model's pid)"""
+    try:
+        r = fn()
+    except BaseException as e:  # noqa
+        if isinstance(e, (KeyboardInterrupt, SystemExit, S.OutOfModel)):
+            raise
+        from pv.canon import PSUTIL_EXC, exc_name
+        n = exc_name(e)
+        if n in PSUTIL_EXC:
+            pid = getattr(e, "pid", None)
+            return T("Exc", T(n, (pidmap or {}).get(pid, pid)))
+        return Exc(n)
+    return Val(conv(r))
+
+
 def _call(p, req):
     k = req[0]
     if k == "nice":
@@ -462,6 +498,8 @@ def _call(p, req):
         return lambda: p.cpu_affinity(req[1])
     if k == "rlimit":
         return lambda: p.rlimit(req[1], None if req[2] is None else tuple(req[2]))
+    if k == "rlimit_scalar":
+        return lambda: p.rlimit(req[1], req[2])
     raise ValueError(k)
 
 
@@ -479,10 +517,27 @@ def _get_call(p, req):
 def impl_run(case, coq, env):
     if case["kind"] == "sim":
         return _run_sim(case, coq, env)
+    if case["kind"] == "status":
+        return _run_status(case, coq, env)
     import platform
     if platform.machine() != "x86_64" or os.geteuid() != 0:
         return T("Skip", "live cases need root on x86_64")
     return _run_live(case, coq, env)
+
+
+def _run_status(case, coq, env):
+    import psutil
+    from pv import fakeproc
+    root = os.path.join(env["work"], "proc")
+    fp = fakeproc.FakeProc(root)
+    with open(os.path.join(root, "stat"), "wb") as f:
+        f.write(b"cpu  10 0 10 100 0 0 0 0 0 0\n" + b"".join(b"cpu%d 1 0 1 10 0 0 0 0 0 0\n" % i for i in range(case["ncpu"]))
+                + b"intr 5\nctxt 7\nbtime 1500000000\nprocesses 3\nprocs_running 1\nprocs_blocked 0\nsoftirq 9\n")
+    fakeproc.attach(psutil, root)
+    fp.add(4242, comm=b"sleep")
+    fp.write(4242, "status", unB(coq["printed"]))
+    p = psutil.Process(4242)
+    return outcome(p._proc._get_eligible_cpus, _conv)
 
 
 def _run_sim(case, coq, env):
@@ -510,12 +565,12 @@ def _run_sim(case, coq, env):
         for m, n in saved:
             setattr(m, n, getattr(sk, n))
         p = psutil.Process(case["pid"])
-        elig = outcome(p._proc._get_eligible_cpus, _conv)
+        elig = _out(p._proc._get_eligible_cpus, _conv)
         try:
-            res = outcome(_call(p, case["req"]), _conv)
+            res = _out(_call(p, case["req"]), _conv)
         except S.OutOfModel as e:
             return T("Skip", str(e))
-        got = outcome(_get_call(p, case["req"]), _conv)
+        got = _out(_get_call(p, case["req"]), _conv)
     except S.OutOfModel as e:
         return T("Skip", str(e))
     finally:
@@ -565,7 +620,7 @@ def _run_live(case, coq, env):
     except Exception:
         pass
     req = case["req"]
-    res_idx = req[1] if req[0] == "rlimit" and isinstance(req[1], int) and 0 <= req[1] < 16 else None
+    res_idx = req[1] if req[0] in ("rlimit", "rlimit_scalar") and isinstance(req[1], int) and 0 <= req[1] < 16 else None
     fresh = []
     if case.get("fresh"):
         fresh = [_spawn(), _spawn()]
@@ -593,18 +648,20 @@ def _run_live2(case, req, res_idx, child, real):
 
     def observe(pid):
         return {"nice": os.getpriority(os.PRIO_PROCESS, pid), "ioprio": S.raw_ioprio_get(pid),
-                "mask": sorted(os.sched_getaffinity(pid)), "rlim": [list(resource.prlimit(pid, r)) for r in range(16)]}
+                "mask": sorted(os.sched_getaffinity(pid)), "rlim": [[S.u64(x) for x in resource.prlimit(pid, r)] for r in range(16)]}
 
     for pid, st in zip(real, case["procs"]):
         reset(pid, st)
     before = [observe(pid) for pid in real]
     for b, st in zip(before, case["procs"]):
-        if (b["nice"], b["ioprio"], b["mask"], b["rlim"]) != (st["nice"], st["ioprio"], st["mask"], st["rlim"]):
+        if (b["nice"], b["ioprio"], b["mask"], b["rlim"]) != (st["nice"], S.reported_ioprio(case["ioget_eff"], st["ioprio"], st["nice"]),
+                                                              st["mask"], st["rlim"]):
             return T("Skip", "could not bring the live child into the start state: %r vs %r" % (b, st))
     p = psutil.Process(child.pid)
-    elig = outcome(p._proc._get_eligible_cpus, _conv)
-    res = outcome(_call(p, req), _conv)
-    got = outcome(_get_call(p, req), _conv)
+    pidmap = {real[0]: case["procs"][0]["pid"], real[1]: case["procs"][1]["pid"]}
+    elig = _out(p._proc._get_eligible_cpus, _conv, pidmap)
+    res = _out(_call(p, req), _conv, pidmap)
+    got = _out(_get_call(p, req), _conv, pidmap)
     dump = []
     for pid, st, b in zip(real, case["procs"], before):
         if psutil.Process(pid).status() == psutil.STATUS_ZOMBIE:
@@ -621,18 +678,25 @@ def _run_live2(case, req, res_idx, child, real):
 
 
 MANIFEST = {
-    "text": "Theorems (Coq, closed under the global context) about the model of Process.nice/ionice/cpu_affinity/rlimit over a simulated kernel "
-            "that clips affinity requests to the process's eligible CPUs (EINVAL on an empty intersection): class<<13|data packing round-trips for "
-            "every class < 2^18 and data < 2^13; the get forms return what the kernel holds (incl. a legitimate nice -1 and the growing CPU-set "
-            "loop for every nr_cpu_ids <= 2^30); after a set with any valid value (nice -20..19, class x level, any non-empty list of eligible "
-            "CPUs with duplicates, any resource with soft<=hard incl. RLIM_INFINITY) the kernel entry and the get form equal exactly that value, "
-            "every other field and every other process unchanged; the listed invalid requests (incl. every non-empty CPU list without an eligible "
-            "CPU, ids of any size) give ValueError with the kernel unchanged; cpu_affinity([]) selects all eligible CPUs for every eligible set "
-            "and every current mask. Four legacy theorems keep the repaired defects (638fb52, 07b12aa, 7214dea) refuted on the old code. One "
-            "theorem ties the whole model to the specification function used as the oracle, without exclusions. The model is tied to the code "
-            "by running both on the same requests (simulated kernel: full finite sweeps; live kernel: spawned child + bystander read back with "
+    "text": "Theorems (Coq, 25, closed under the global context) about the model of Process.nice/ionice/cpu_affinity/rlimit over a simulated "
+            "kernel with the kernel's validity AND permission rules (capability flags, RLIMIT_NICE, fs.nr_open, cpuset clipping, effective "
+            "ioprio_get): class<<13|data packing round-trips; the get forms return what the kernel reports (legitimate nice -1, growing CPU-set "
+            "loop for every nr_cpu_ids <= 2^30, RLIM_INFINITY = 2^64-1 shown as -1 with a lossless Python<->rlim_t conversion); after a "
+            "permitted set with any valid value (nice -20..19, class x level incl. level 0 for idle/none, any non-empty list of eligible CPUs, "
+            "any resource with soft<=hard as rlim_t) the kernel entry and the get form equal exactly that value, every other field and process "
+            "unchanged; refused sets (lower nice beyond RLIMIT_NICE without CAP_SYS_NICE, RT class without CAP_SYS_ADMIN/NICE, raising a hard "
+            "limit without CAP_SYS_RESOURCE, NOFILE above nr_open) give AccessDenied carrying the pid with the state unchanged; the invalid "
+            "requests (level outside 0-7, level for idle/none, level without class, class outside 0-3, CPU lists without an eligible CPU incl. "
+            "ids of any size, limits that are not a pair) give ValueError, soft>hard ValueError, values beyond a C long long OverflowError, a "
+            "scalar TypeError -- all with the state unchanged; cpu_affinity([]) selects all eligible CPUs for every eligible set and mask; the "
+            "Cpus_allowed_list parser returns exactly the printed set for EVERY kernel-printed list with arbitrary lines before it (incl. a "
+            "Name: line that looks like the key) and arbitrary text after. Four legacy theorems keep the repaired defects refuted on the old "
+            "code; one theorem ties the whole model to the specification function used as the oracle, without exclusions. The model is tied to "
+            "the code by running both on the same requests (simulated kernel: full finite sweeps; live kernel: child + bystander read back with "
             "raw system calls).",
     "note": "Trusted: Coq kernel + vm_compute; kernel rules and status format in coq/C18/Kernel.v; hand-written model coq/C18/Model.v (tied by the "
             "correspondence run only); SimKernel and the live accessors in props/_c18_sim.py; CPython (re, set order, resource module). The real "
-            "kernel's semantics are sampled by the live cases, not modelled beyond Kernel.v; the C wrappers are exercised by the live cases only.",
+            "kernel's semantics are sampled by the live cases, not modelled beyond Kernel.v; the C wrappers are exercised by the live cases only. "
+            "Where the property text is silent (refused sets, unknown class, scalar limits, mixed CPU lists) the oracle demands nothing; those "
+            "answers are covered by theorems about the model plus the model-vs-code comparison.",
 }
